@@ -827,7 +827,7 @@ func checkSharedState(c *report.Ctx) {
 			}
 			for i := 0; i < st.NumFields(); i++ {
 				if _, isMap := st.Field(i).Type().Underlying().(*types.Map); isMap {
-					k := an.TypeName(named) + "." + st.Field(i).Name()
+					k := an.TypeName(named) + "." + an.FieldName(named, st.Field(i).Name())
 					if !covered[k] && !strings.HasPrefix(k, "L/testdata.") && !strings.HasPrefix(k, "L/rapidcore/standalone") {
 						uncovered = append(uncovered, k)
 					}
